@@ -597,3 +597,148 @@ def calibration_ctor_unit(u: Unit):
             okr = isinstance(tfr, VTuple) and [getattr(x, "v", None) for x in tfr.items] == [0, 2, 0, 3] and p.ex.try_list(rfr) == []
             u.oblige(p, f"calibration.ctor.fit_ranges_kept_or_empty[{seeds}]", bool(okr), {}, CTOR_REPLAY)
         u.cover(f"calibration.ctor.cover[{seeds}]", ps, lambda p: p.kind == "return")
+
+
+BUILD_REPLAY = lambda w: {"code": """
+import sys, types
+import numpy as np
+LOG = []
+class _Island:
+    def __init__(self, **kw): self.kw = kw
+class _Archi:
+    def __init__(self): self.items = []
+    def push_back(self, isl): self.items.append(isl)
+fake = types.ModuleType('pygmo'); fake.island = lambda **kw: _Island(**kw)
+real = sys.modules.get('pygmo'); sys.modules['pygmo'] = fake
+from pyxel.calibration.archipelago_datatree import ArchipelagoDataTree
+VIOLATED, DETAIL = False, 'island seeds are the first num_islands draws of default_rng(pygmo_seed), one per island in order; no seed -> none; 0 is a seed'
+try:
+    for seed in (0, 1, 7, 100000, None):
+        for parallel in (False, True):
+            for n in (1, 3):
+                a = ArchipelagoDataTree.__new__(ArchipelagoDataTree)
+                a.pygmo_seed, a.num_islands, a.parallel, a.with_bar = seed, n, parallel, False
+                a.udi, a._pygmo_algo, a._pygmo_prob, a.bfe, a.pop_size = 'udi', 'algo', 'prob', 'bfe', 5
+                a._pygmo_archi = _Archi()
+                a._build()
+                got = [i.kw.get('seed') for i in a._pygmo_archi.items]
+                if seed is None:
+                    want = [None] * n
+                else:
+                    r = np.random.default_rng(seed=seed); want = [int(r.integers(0, np.iinfo(np.uint32).max)) for _ in range(n)]
+                if got != want or any(i.kw.get('udi') != 'udi' or i.kw.get('algo') != 'algo' or i.kw.get('prob') != 'prob' or i.kw.get('size') != 5 for i in a._pygmo_archi.items):
+                    VIOLATED, DETAIL = True, f'pygmo_seed={seed!r} islands={n} parallel={parallel}: island seeds {got}, expected {want}'
+                    raise StopIteration
+except StopIteration:
+    pass
+finally:
+    if real is not None: sys.modules['pygmo'] = real
+    else: sys.modules.pop('pygmo', None)
+""", "expect": "island seeds = draws of default_rng(pygmo_seed) in island order (0 is a seed), same with and without threads"}
+
+
+def build_unit(u: Unit, n_islands=(1, 3)):
+    """ArchipelagoDataTree._build executed with the optimiser library at the boundary: for EVERY optimiser seed (0 included) island k is
+    created with the k-th draw of ONE generator default_rng(seed=pygmo_seed) (so the seeds are a function of pygmo_seed and the island
+    position alone); without a seed every island is unseeded; the islands are pushed back once each in creation order, with the
+    archipelago's own udi / algorithm / problem / bfe / population size, with and without threads. Island count: concrete 1 and 3
+    (the list comprehension is unrolled; BOUNDED in the island count, unbounded in the seed)."""
+    fi = u.fn(f"{AD}::ArchipelagoDataTree._build")
+    aci = u.cls(f"{AD}::ArchipelagoDataTree")
+    for n in n_islands:
+        for seeded in (True, False):
+            cfg = Cfg("real")
+            rec = u.track({"islands": [], "pushed": [], "rngs": [], "draws": []})
+
+            def default_rng(ex, f, args, kwargs, fr, rec=rec):
+                s = kwargs.get("seed", args[0] if args else NONE)
+                r = VOpaque("rng", len(rec["rngs"]), {"seed": s})
+                rec["rngs"].append(r)
+                return r
+
+            def rng_attr(ex, obj, name, fr):
+                if name == "integers":
+                    return VLib("rng.integers", obj)
+                raise Unsupported(f"Generator.{name}")
+
+            def integers(ex, f, args, kwargs, fr, rec=rec):
+                g = f.self_val
+                k = sum(1 for d in rec["draws"] if d[0] is g)
+                v = VInt(ex.st.fresh_int(f"draw{g.t}_{k}"))
+                rec["draws"].append((g, k, list(args), dict(kwargs), v))
+                return v
+
+            def island(ex, f, args, kwargs, fr, rec=rec):
+                o = VOpaque("island", len(rec["islands"]), {"kw": dict(kwargs), "args": list(args)})
+                rec["islands"].append(o)
+                return o
+
+            def archi_attr(ex, obj, name, fr):
+                return VLib(f"archi.{name}", obj)
+
+            def push_back(ex, f, args, kwargs, fr, rec=rec):
+                rec["pushed"].append(args[0] if args else None)
+                return NONE
+
+            def executor(ex, f, args, kwargs, fr):
+                return VOpaque("executor", None, {"kw": dict(kwargs)})
+
+            def executor_attr(ex, obj, name, fr):
+                if name == "map":
+                    return VLib("executor.map", obj)
+                raise Unsupported(f"executor.{name}")
+
+            def executor_map(ex, f, args, kwargs, fr):
+                # concurrent.futures.Executor.map: results in the order of the inputs (documented); the calls may run concurrently,
+                # create_island reads self and writes nothing (checked below: no heap write between the map and the first push_back)
+                return ex.st.alloc(HList([ex.call(args[0], [x], {}, fr) for x in ex.iterate(args[1], fr)]))
+
+            def with_executor(ex, cm, item, body, fr):
+                if item.optional_vars is not None:
+                    ex.assign(item.optional_vars, cm, fr)
+                return ex.exec_block(body, fr)
+            cfg.lib_overrides.update({"numpy.random.default_rng": default_rng, ("opaque_attr", "rng"): rng_attr, "rng.integers": integers, "pygmo.island": island,
+                                      ("opaque_attr", "archi"): archi_attr, "archi.push_back": push_back, "concurrent.futures.ThreadPoolExecutor": executor,
+                                      "concurrent.futures.thread.ThreadPoolExecutor": executor, ("opaque_attr", "executor"): executor_attr, "executor.map": executor_map, ("with", "executor"): with_executor,
+                                      "timeit.default_timer": lambda ex, f, args, kwargs, fr: VFloat(ex.st.fresh_real("timer")),
+                                      "builtins.map": lambda ex, f, args, kwargs, fr: ex.st.alloc(HList([ex.call(args[0], [x], {}, fr) for x in ex.iterate(args[1], fr)]))})
+            cfg.lib_prefix["tqdm."] = lambda ex, f, args, kwargs, fr: args[0]
+
+            def setup(ex, n=n, seeded=seeded, rec=rec):
+                st = ex.st
+                rec.update(islands=[], pushed=[], rngs=[], draws=[])
+                h = ex.hold = {k: VOpaque("xr", None, {"label": k, "truthy": True}) for k in ("udi", "_pygmo_algo", "_pygmo_prob", "bfe")}
+                me = st.alloc(HObj(aci, dict(h, pop_size=VInt(z3.Int("pop_size")), pygmo_seed=VInt(z3.Int("pygmo_seed")) if seeded else NONE, num_islands=VInt(n),
+                                             parallel=VBool(z3.Bool("parallel")), with_bar=VBool(z3.Bool("with_bar")), _pygmo_archi=VOpaque("archi", None, {}))))
+                ex.me = me
+                return [me], {}
+            ps = u.paths(fi, setup, cfg, label=f"ArchipelagoDataTree._build[{n} islands, {'seeded' if seeded else 'no seed'}]")
+            tag = f"[{n},{'seeded' if seeded else 'unseeded'}]"
+            for p in ps:
+                if p.kind != "return":
+                    u.oblige(p, f"islands.build.completes{tag}", False, {"exc": p.exc_name(), "pygmo_seed": z3.Int("pygmo_seed")}, BUILD_REPLAY)
+                    continue
+                h = p.ex.hold
+                isl = rec["islands"]
+                ok = len(isl) == n and len(rec["pushed"]) == n and all(a is b for a, b in zip(rec["pushed"], isl))
+                u.oblige(p, f"islands.build.one_island_per_position_in_order{tag}", bool(ok), {"created": len(isl), "pushed": len(rec["pushed"])}, BUILD_REPLAY)
+                own = all(not i.info["args"] and i.info["kw"].get("udi") is h["udi"] and i.info["kw"].get("algo") is h["_pygmo_algo"] and i.info["kw"].get("prob") is h["_pygmo_prob"]
+                          and i.info["kw"].get("b") is h["bfe"] and isinstance(i.info["kw"].get("size"), VInt) for i in isl)
+                u.oblige(p, f"islands.build.own_settings{tag}", z3.And(zb(bool(own)), *[z_int(i.info["kw"]["size"].v) == z3.Int("pop_size") for i in isl]) if own else False, {}, BUILD_REPLAY)
+                seeds = [i.info["kw"].get("seed") for i in isl]
+                if not seeded:
+                    u.oblige(p, f"islands.build.no_seed_no_island_seed{tag}", all(isinstance(s, VNone) for s in seeds) and not rec["draws"], {}, BUILD_REPLAY)
+                    continue
+                one = len(rec["rngs"]) == 1 and isinstance(rec["rngs"][0].info["seed"], VInt)
+                draws = rec["draws"]
+                shape = one and len(draws) == n and all(d[0] is rec["rngs"][0] and d[1] == k for k, d in enumerate(draws)) and all(isinstance(s, VInt) for s in seeds)
+                if not shape:
+                    u.oblige(p, f"islands.build.seeds_are_draws_of_one_generator{tag}", False,
+                             {"pygmo_seed": z3.Int("pygmo_seed"), "generators": len(rec["rngs"]), "draws": len(draws), "island_seeds": " ".join(type(s).__name__ for s in seeds)}, BUILD_REPLAY)
+                    continue
+                rng_args = all(len(d[2]) == 2 and isinstance(d[2][0], VInt) and isinstance(d[2][1], VInt) and not d[3] for d in draws)
+                u.oblige(p, f"islands.build.seeds_are_draws_of_one_generator{tag}",
+                         z3.And(zb(rng_args), z_int(rec["rngs"][0].info["seed"].v) == z3.Int("pygmo_seed"), *[z_int(s.v) == z_int(d[4].v) for s, d in zip(seeds, draws)],
+                                *([z3.And(z_int(d[2][0].v) == 0, z_int(d[2][1].v) == 4294967295) for d in draws] if rng_args else [])),
+                         {"pygmo_seed": z3.Int("pygmo_seed")}, BUILD_REPLAY)
+            u.cover(f"islands.build.cover{tag}", ps, lambda p: p.kind == "return")
